@@ -34,9 +34,10 @@ const EPS_DIRECT: f64 = 1.0e-9;
 const EPS_DERIVED: f64 = 1.0e-6;
 /// NTv2: owner not asserted closer than this to any sub-grid border (cell units of that sub-grid)
 const TAU_CELL: f64 = 1.0e-4;
-/// NTv2: registered finding `ntv2-upper-edge-band-absolute`: the library hands points within
-/// 1e-6 rad of a sub-grid's north/east edge to the parent; excluded by widening the band
-const TAU_RAD: f64 = 1.05e-6;
+/// NTv2: additional absolute band (radians) around sub-grid borders in which the owner is not
+/// asserted in the list/operator sections. It was 1.05e-6 while finding `ntv2-upper-edge-band-absolute`
+/// (upper-edge tolerance of 1e-6 rad instead of 1e-6 cell) was open; the finding is repaired, so 0.
+const TAU_RAD: f64 = 0.0;
 
 /// failure keys of registered findings: reported only when nothing else fails in the same case
 const REGISTERED: [&str; 6] = [
@@ -1353,8 +1354,10 @@ fn check_ntv2(c: &NtCase, rec: &mut Rec) -> CaseResult {
                     } else {
                         // which sub-grid was used, if any?
                         let other = (0..nsub).find(|&i| close_to(&v, &m.cand(i, x, y), 2, 0.0));
+                        // signature of the repaired finding: within 1e-6 rad south/west of the north/east edge of a containing sub-grid
+                        let in_band = (0..nsub).any(|i| m.subs[i].dist_in(x, y, 0.0) > 0.0 && (m.subs[i].lat_n - y < 1.05e-6 || m.subs[i].lon_e - x < 1.05e-6));
                         let key = match other {
-                            Some(_) if o.near_rad_only => "ntv2-upper-edge-band-absolute",
+                            Some(_) if o.near_rad_only || in_band => "ntv2-upper-edge-band-absolute",
                             Some(_) => "ntv2-wrong-subgrid",
                             None => "ntv2-value-mismatch",
                         };
@@ -1758,7 +1761,7 @@ fn check_op(c: &OpCase, backend: Backend, rec: &mut Rec) -> CaseResult {
                 count_hi += (!e.cands.is_empty() || c.null) as usize;
                 count_lo += (!e.nohit_ok || c.null) as usize;
                 rec.class(if !e.unique() { "knife-edge(candidates)" } else if e.nohit_ok { if c.null { "outside-all,null-grid" } else { "outside-all" } } else { "hit" });
-                let unit_tol = if linear { 1e-9 * (x.abs() + y.abs()) } else { 4e-16 * 4.0 };
+                let unit_tol = 8.0 * f64::EPSILON * (x.abs() + y.abs() + 1.0); // rounding of coordinate + shift
                 if !inverse || bands == 1 {
                     let sign = if inverse { 1.0 } else { -1.0 };
                     let ok_hit = e.cands.iter().any(|cd| {
